@@ -292,26 +292,40 @@ bloom_filter_alloc<A> bloom_filter_alloc<A>::deserialize(std::istream& is, const
   const uint64_t seed = read<uint64_t>(is);
   const uint32_t num_longs = read<uint32_t>(is); // sized in java longs
   read<uint32_t>(is); // unused
+  if (!is.good()) throw std::runtime_error("error reading from std::istream");
+  const uint64_t num_bits = static_cast<uint64_t>(num_longs) << 6;
 
   // if empty, stop reading
   if (is_empty) {
-    return bloom_filter_alloc<A>(num_longs << 6, num_hashes, seed, allocator);
+    return bloom_filter_alloc<A>(num_bits, num_hashes, seed, allocator);
   }
 
   const uint64_t num_bits_set = read<uint64_t>(is);
+  if (!is.good()) throw std::runtime_error("error reading from std::istream");
   const bool is_dirty = (num_bits_set == DIRTY_BITS_VALUE);
 
+  if (num_hashes == 0) {
+    throw std::invalid_argument("Possible corruption: Must have at least 1 hash function");
+  }
+  if (num_bits == 0 || num_bits > MAX_FILTER_SIZE_BITS) {
+    throw std::invalid_argument("Possible corruption: Invalid bit array length: " + std::to_string(num_longs));
+  }
+
   // allocate memory
-  const uint64_t num_bytes = num_longs << 3;
+  const uint64_t num_bytes = num_bits >> 3;
   AllocUint8 alloc(allocator);
   uint8_t* bit_array = alloc.allocate(num_bytes);
   if (bit_array == nullptr) {
     throw std::bad_alloc();
   }
   read(is, bit_array, num_bytes);
+  if (!is.good()) {
+    alloc.deallocate(bit_array, num_bytes);
+    throw std::runtime_error("error reading from std::istream");
+  }
 
   // pass to constructor
-  return bloom_filter_alloc<A>(seed, num_hashes, is_dirty, true, false, num_longs << 6, num_bits_set, bit_array, nullptr, allocator);
+  return bloom_filter_alloc<A>(seed, num_hashes, is_dirty, true, false, num_bits, num_bits_set, bit_array, nullptr, allocator);
 }
 
 template<typename A>
